@@ -241,6 +241,12 @@ func visitInline(fw *formatWriter, source []byte, cursor *commonmark.Cursor) boo
 	case commonmark.LinkKind:
 		fw.s("[")
 		return true
+	case commonmark.EmphasisKind, commonmark.StrongKind:
+		// Written from the tree rather than copied from the source:
+		// the source of an emphasis that continues on another line
+		// contains the line prefixes of the enclosing containers.
+		fw.b(emphasisDelimiter(source, child))
+		return true
 	case commonmark.TextKind:
 		if cursor.ParentBlock().Kind().IsCode() {
 			fw.b(spanSlice(source, child.Span()))
@@ -266,14 +272,72 @@ func visitInline(fw *formatWriter, source []byte, cursor *commonmark.Cursor) boo
 		if !child.Span().IsValid() {
 			return false
 		}
-		fw.b(spanSlice(source, child.Span()))
+		writeInlineSource(fw, source, child)
 		return false
 	}
+}
+
+// writeInlineSource copies the source text of an inline node.
+// Where the node continues on another line,
+// the spaces, tabs and block quote markers at the beginning of that line
+// are the line prefix of the enclosing containers or stripped indentation
+// (none of them can begin the content of a paragraph continuation line).
+// They are left out: the writer supplies the current prefix itself.
+func writeInlineSource(fw *formatWriter, source []byte, inline *commonmark.Inline) {
+	span := inline.Span()
+	pos := span.Start
+	atLineStart := false
+	copyGap := func(end int) {
+		gap := source[pos:end]
+		pos = end
+		for len(gap) > 0 {
+			if atLineStart {
+				gap = bytes.TrimLeft(gap, " \t>")
+				atLineStart = false
+				continue
+			}
+			i := bytes.IndexAny(gap, "\r\n")
+			if i < 0 {
+				fw.b(gap)
+				return
+			}
+			i++
+			if gap[i-1] == '\r' && i < len(gap) && gap[i] == '\n' {
+				i++
+			}
+			fw.b(gap[:i])
+			gap = gap[i:]
+			atLineStart = true
+		}
+	}
+	var visit func(n *commonmark.Inline)
+	visit = func(n *commonmark.Inline) {
+		if n.ChildCount() > 0 {
+			for i := 0; i < n.ChildCount(); i++ {
+				visit(n.Child(i))
+			}
+			return
+		}
+		leaf := n.Span()
+		if !leaf.IsValid() || leaf.Start < pos || leaf.End > span.End || leaf.Len() == 0 {
+			return
+		}
+		copyGap(leaf.Start)
+		text := source[leaf.Start:leaf.End]
+		fw.b(text)
+		pos = leaf.End
+		last := text[len(text)-1]
+		atLineStart = last == '\n' || last == '\r'
+	}
+	visit(inline)
+	copyGap(span.End)
 }
 
 func postInline(fw *formatWriter, source []byte, cursor *commonmark.Cursor) {
 	child := cursor.Node().Inline()
 	switch child.Kind() {
+	case commonmark.EmphasisKind, commonmark.StrongKind:
+		fw.b(emphasisDelimiter(source, child))
 	case commonmark.LinkKind:
 		fw.s("]")
 		if ref := child.LinkReference(); ref != "" {
@@ -302,6 +366,15 @@ func postInline(fw *formatWriter, source []byte, cursor *commonmark.Cursor) {
 			fw.s(")")
 		}
 	}
+}
+
+// emphasisDelimiter returns the delimiter run that opens (and closes) an emphasis node.
+func emphasisDelimiter(source []byte, inline *commonmark.Inline) []byte {
+	start := inline.Span().Start
+	if inline.Kind() == commonmark.StrongKind {
+		return source[start : start+2]
+	}
+	return source[start : start+1]
 }
 
 func isShortcutLinkOrImage(inline *commonmark.Inline) bool {
